@@ -526,3 +526,59 @@ M2('c06-render-media-helper-drops-content-type-store', 'C06', 'R7', [
             "            handler, _, _ = self.options.media_handlers._resolve(media_type, self.options.default_media_type)\n"
             "            self._media_rendered = handler.serialize(self._media, media_type)\n\n        return self._media_rendered\n\n"
             "    def __repr__(self) -> str:\n        return f'<{self.__class__.__name__}: {self.status}>'\n"}], also=('C05', 'C12', 'C11'))
+# ------------------------------------------------------------------ wave 11
+# R22 (s11-c06-1): the WSGI iterator remembers "end of stream" in a flag that a SHORT read sets; the next call ends the iteration
+_AH = 'falcon/app_helpers.py'
+_ITER_INIT = "        self._stream = stream\n        self._block_size = block_size\n"
+_ITER_NEXT = ("        data = self._stream.read(self._block_size)\n\n        if data == b'':\n            raise StopIteration\n"
+              "        else:\n            return data\n")
+M2('c06-wsgi-stream-iterator-drained-flag-set-by-short-block', 'C06', 'R22', [
+    {'file': _AH, 'old': _ITER_INIT, 'new': _ITER_INIT + "        self._drained = False\n"},
+    {'file': _AH, 'old': _ITER_NEXT,
+     'new': "        if self._drained:\n            raise StopIteration\n\n        data = self._stream.read(self._block_size)\n\n"
+            "        if len(data) < self._block_size:\n            self._drained = True\n\n            if data == b'':\n                raise StopIteration\n\n"
+            "        return data\n"}])
+# ... the flag assigned from the comparison
+M2('c06-wsgi-stream-iterator-drained-flag-is-short-comparison', 'C06', 'R22', [
+    {'file': _AH, 'old': _ITER_INIT, 'new': _ITER_INIT + "        self._drained = False\n"},
+    {'file': _AH, 'old': _ITER_NEXT,
+     'new': "        if self._drained:\n            raise StopIteration\n\n        data = self._stream.read(self._block_size)\n"
+            "        self._drained = len(data) < self._block_size\n\n        if data == b'':\n            raise StopIteration\n        else:\n            return data\n"}])
+# ... the opposite polarity: "more to come" only after a FULL block
+M2('c06-wsgi-stream-iterator-more-flag-only-after-full-block', 'C06', 'R22', [
+    {'file': _AH, 'old': _ITER_INIT, 'new': _ITER_INIT + "        self._more = True\n"},
+    {'file': _AH, 'old': _ITER_NEXT,
+     'new': "        if not self._more:\n            raise StopIteration\n\n        data = self._stream.read(self._block_size)\n"
+            "        self._more = len(data) == self._block_size\n\n        if not data:\n            raise StopIteration\n\n        return data\n"}])
+# ... a local named after the comparison ends the iteration
+M('c06-wsgi-stream-iterator-local-short-flag', 'C06', 'R22', _AH, _ITER_NEXT,
+  "        data = self._stream.read(self._block_size)\n        short_block = len(data) < self._block_size\n\n"
+  "        if short_block:\n            raise StopIteration\n\n        return data\n")
+# ... the ASGI loop remembers a short block in a local and leaves at the top of the next round
+M('c06-asgi-stream-loop-local-last-flag-from-short-block', 'C06', 'R22', _AA, _ASGI_READ_LOOP,
+  "                    last = False\n                    while True:\n                        if last:\n                            break\n"
+  "                        data = await stream.read(self._STREAM_BLOCK_SIZE)\n                        last = len(data) < self._STREAM_BLOCK_SIZE\n"
+  "                        if data == b'':\n                            break\n                        else:\n")
+
+
+# R24 (finding F26): a generated header of the ASGI test scope is added only when the caller did not pass that header
+_TH = 'falcon/testing/helpers.py'
+M('c06-create-scope-generated-host-unconditional', 'C06', 'R24', _TH,
+  "    if http_version != '1.0' and b'host' not in supplied:\n", "    if http_version != '1.0':\n")
+M('c06-create-scope-generated-cookie-unconditional', 'C06', 'R24', _TH,
+  "    if cookies is not None and b'cookie' not in supplied:\n", "    if cookies is not None:\n")
+M('c06-create-scope-generated-content-length-unconditional', 'C06', 'R24', _TH,
+  "    if content_length is not None and b'content-length' not in supplied:\n", "    if content_length is not None:\n")
+M('c06-create-scope-generated-host-guarded-by-wrong-name', 'C06', 'R24', _TH,
+  "    if http_version != '1.0' and b'host' not in supplied:\n", "    if http_version != '1.0' and b'user-agent' not in supplied:\n")
+M('c06-create-environ-caller-headers-before-generated-cookie', 'C06', 'R24', _TH,
+  "    if cookies is not None and method != 'OPTIONS':\n        env['HTTP_COOKIE'] = _make_cookie_values(cookies)\n\n    _add_headers_to_environ(env, headers)\n",
+  "    _add_headers_to_environ(env, headers)\n\n    if cookies is not None and method != 'OPTIONS':\n        env['HTTP_COOKIE'] = _make_cookie_values(cookies)\n")
+# R6 (k4-c06-2 + break): the WSGI route tail reads the cached list and the peer through once-bound locals (silent on its own) --
+# and appends the peer on a membership test instead of comparing it with the last hop
+M('c06-wsgi-access-route-tail-through-locals-peer-membership', 'C06', 'R6', 'falcon/request.py',
+  "            if self._cached_access_route:\n                if self._cached_access_route[-1] != self.remote_addr:\n"
+  "                    self._cached_access_route.append(self.remote_addr)\n            else:\n                self._cached_access_route = [self.remote_addr]\n",
+  "            remote_addr = self.remote_addr\n            cached_route = self._cached_access_route\n\n"
+  "            if cached_route:\n                if remote_addr not in cached_route:\n                    cached_route.append(remote_addr)\n"
+  "            else:\n                self._cached_access_route = [remote_addr]\n", also=('C09',))
